@@ -46,6 +46,10 @@ def jobs(tier):
   js.append(dict(name='source-eq-hash', op='eqhash', pool=pool, cost=1))
   for k in (2, 3):
     js.append(dict(name='percentile-over-time-s%d' % k, op='pcttime', k=k, cost=3 ** k))
+  # a reservoir that is full (capacity concretised to 2) and aggregated between updates: later samples replace retained
+  # ones with the symbolic probability of the real Sample(); every report must come from the samples retained *then*
+  for k in ((2,) if tier == 'quick' else (2, 3)):
+    js.append(dict(name='percentile-full-reservoir-c2-extra%d' % k, op='pctfull', k=k, cap=2, cost=4 ** k))
   return js
 
 
@@ -173,6 +177,34 @@ def make_body(job):
           check('recent-source-mean-in-band', sand(tot[0] >= mn, tot[0] <= mx))
       finally:
         varz_mod.LOW_RESOLUTION_TIME_SOURCE = saved
+    elif op == 'pctfull':
+      k = job['k']; cap = job['cap']
+      saved_cap = VarzReceiver._MAX_PERCENTILE_SIZE
+      VarzReceiver._MAX_PERCENTILE_SIZE = cap
+      try:
+        n = 0
+        for rnd in range(2):
+          for i in range(cap if rnd == 0 else k):
+            VarzReceiver.RecordPercentileSample(Source(1, 1, 1, 1), M_PCT, fresh_real('sample%d' % n, -1000, 1000)); n += 1
+          res = list(VarzReceiver.VARZ_DATA[M_PCT].values())[0]
+          check('reservoir-bounded', isinstance(res, _SampleSet) and len(res.data) == cap)
+          kept = list(res.data)
+          agg = VarzAggregator.Aggregate(VarzReceiver.VARZ_DATA, VarzReceiver.VARZ_METRICS)[M_PCT]
+          tot = list(agg.values())[0].total
+          mn = kept[0]; mx = kept[0]
+          for sv in kept[1:]:
+            mn = sv if bool(sv < mn) else mn
+            mx = sv if bool(sv > mx) else mx
+          prev = None
+          for p, pct in zip(tot[1:], VarzReceiver.VARZ_PERCENTILES):
+            check('full-reservoir-percentile-in-retained-band@%s' % pct, sand(p >= mn, p <= mx))
+            if prev is not None: check('full-reservoir-percentile-monotone@%s' % pct, p >= prev)
+            prev = p
+          check('full-reservoir-mean-in-retained-band', sand(tot[0] >= mn, tot[0] <= mx))
+          if rnd == 1 and any(a is not b for a, b in zip(kept, first_kept)): cover('sample-replaced-after-first-report')
+          first_kept = kept
+      finally:
+        VarzReceiver._MAX_PERCENTILE_SIZE = saved_cap
     elif op == 'pct':
       k = job['k']
       src = (1, 1, 1, 1)
